@@ -37,7 +37,8 @@ class QueryPlanner:
                 if isinstance(integration, dict):
                     integration_name = integration['name'].lower()
                     # it is project of system database
-                    if integration['type'] != 'data':
+                    # {'name': 'x'} says the same as the bare name 'x': a data integration
+                    if integration.get('type', 'data') != 'data':
                         _projects.add(integration_name)
                         continue
                 else:
